@@ -7,6 +7,23 @@ HERE = os.path.dirname(os.path.abspath(__file__))
 
 # property -> (technique, level text, level note, design ref)
 CLAIMED = {
+    'C01': ('who-may-call / argument discipline on the single text primitive (_put_src must offset unless the receiver is not derived from '
+            'the target); flow-sensitive must-be-bistr dataflow for every value stored into or adopted as a live line list; table '
+            'exhaustiveness of put handlers and of the syntax-order child table against the grammar',
+            'Static: decides four disciplines without which text and tree cannot stay in step: every splice of a live tree offsets '
+            'positions, every live source line is a byte-indexable bistr, every grammar position has a working put path, and every '
+            'child is enumerated (in order) by the offset / flush / make / unmake walks. Re-parse equality itself is value-level '
+            'and not decided.',
+            'Trusts derivation of receivers from `self` (sa/effects.py) and the two reviewed no-offset sites in sa/rules/c01.py.',
+            'DESIGN.md §2 C01'),
+    'C11': ('syntax-order table completeness and order against the grammar (shared with C14), orientation typestate of reversed work '
+            'lists in the interleaved child builders, unit inference (bytes vs characters) on the offset primitives, control-dependence '
+            'of the early termination of the offset walk',
+            'Static: decides the two preconditions of the offset walk - children enumerated completely and in source order, and byte '
+            'deltas applied to byte columns - plus that its early exit is decided by child END positions. The head/tail rules at the '
+            'edit point are integer logic over runtime positions and are not decided.',
+            'Trusts FIELDS order as syntax order for non-interleaved classes; naming conventions for units.',
+            'DESIGN.md §2 C11'),
     'C06': ('byte / character unit inference (qualifier analysis over every column expression: sources by attribute, conversion call and '
             'naming convention; sinks: col_offset stores and keywords, c2b/b2c arguments, string indices, regex / startswith positions, '
             'fstloc columns, unit-named parameters of resolved callees); line/column pairing of guarded position stores; registry '
@@ -149,7 +166,7 @@ NOT_APPLICABLE = {
            'conservation is value-level. Its two structural clauses are checked as R5.1 and R7.3.',
 }
 
-PLANNED = ['C01', 'C02', 'C04', 'C11']
+PLANNED = ['C02', 'C04']
 
 
 def main():
